@@ -10,7 +10,7 @@ import time
 from concurrent.futures import ThreadPoolExecutor
 
 VERIF = os.path.dirname(os.path.dirname(os.path.abspath(__file__)))
-REPO = os.environ.get("VERIF_REPO", "/repo")
+REPO = os.environ.get("VERIF_REPO") or os.environ.get("VP_RUN_REPO") or "/repo"
 BUILD = os.path.join(VERIF, ".build")
 HARNESS = os.path.join(VERIF, "harness")
 GUARD = "GOOGLE_CCTZ_VERIF"
